@@ -6,6 +6,7 @@ mod chandrv;
 mod deploydrv;
 mod scriptdrv;
 mod drivers;
+mod multidrv;
 mod storedrv;
 mod tree;
 mod world;
@@ -133,6 +134,7 @@ fn main() {
         "deploy" => deploydrv::run(&args),
         "chan" => chandrv::run(&args),
         "script" => scriptdrv::run(&args),
+        "multi" => multidrv::run(&args),
         "tree" => drivers::trees(&args),
         _ => {
             eprintln!("usage: harness <random|replay|tree> --models F --out F [--seed N] ...");
